@@ -55,7 +55,9 @@ CONTRACTS = {
     params={'args': ('ext', 'argv')}, self_fields={},
     defs={'has': (['x'], 'not (x == None)')},
     requires=[('skew-positive-when-given', "implies(has(given('skew')), given('skew') > 0)")],
-    ensures=[('one-file-written-per-requested-instance', 'files_written() == old(files_written()) + self.args.numberinstances')]),
+    ensures=[('one-file-written-per-requested-instance', 'files_written() == old(files_written()) + self.args.numberinstances'),
+             ('files-numbered-in-order-each-with-the-header-of-the-problem-type', "forall(w, old(files_written()), files_written(), file_named_ok(w) and file_index(w) == w - old(files_written())"
+              " and file_has_text(w) and len(text_toks(file_text(w), 0)) == ite(given('matchingproblem') == 'spa', 3, 2), file_index(w))")]),
  SPA + 'create_instance_info': dict(pure_text=True), HSH + 'create_instance_info': dict(pure_text=True),
  SPA + 'create_instance': dict(
     locals={'instance_string': 'text'}, defs=SPA_DEFS,
@@ -110,20 +112,20 @@ CONTRACTS = {
     defs={'file_ok': (['w', 'u'], 'file_named_ok(w) and file_index(w) == u and file_has_text(w) and len(text_toks(file_text(w), 0)) == 3 and value(text_toks(file_text(w), 0)[0]) == args.n1 and value(text_toks(file_text(w), 0)[1]) == args.n2 and value(text_toks(file_text(w), 0)[2]) == args.n3 and text_len(file_text(w)) >= 2 + args.n1 + args.n2 + args.n3')},
     requires=ARGS_OK + ARGS_SPA + ['args.upperquotas >= args.n2'],
     loops={0: dict(invariant=[('one-file-written-per-instance-so-far', 'files_written() == old(files_written()) + _k'),
-                              ('files-so-far-are-numbered-in-order-and-hold-an-instance-text', 'forall(u, 0, _k, file_ok(old(files_written()) + u, u))')])},
+                              ('files-so-far-are-numbered-in-order-and-hold-an-instance-text', 'forall(w, old(files_written()), old(files_written()) + _k, file_ok(w, w - old(files_written())), file_index(w))')])},
     use_lemmas={'after_call:create_instance_info': [
         ('C08/spread-monotone', {'n': 'args.n2', 'a': 'args.lowerquotas', 'b': 'args.upperquotas'}),
         ('C09/quota-order', {'n': 'args.n3', 'llq': 'args.lecturerlowerquotas', 'lt': 'args.lecturertargets', 'luq': 'args.lecturerupperquotas'})]},
     ensures=[('exactly-the-requested-number-of-files', 'files_written() == old(files_written()) + args.numberinstances'),
-             ('files-are-named-0-1-2-in-the-output-directory-and-each-holds-an-instance-text-with-the-requested-counts', 'forall(u, 0, args.numberinstances, file_ok(old(files_written()) + u, u))')]),
+             ('files-are-named-0-1-2-in-the-output-directory-and-each-holds-an-instance-text-with-the-requested-counts', 'forall(w, old(files_written()), old(files_written()) + args.numberinstances, file_ok(w, w - old(files_written())), file_index(w))')]),
  HSH + 'generate_instances': dict(
     params={'args': ('obj', 'GenArgs')}, self_fields={}, theory=['listsets'],
     modifies=['ghost:fs_n', 'ghost:fs_idx', 'ghost:fs_shaped', 'ghost:fs_txt', 'ghost:fs_hastxt'],          # the ghost log of file writes (callers must not assume it unchanged)
     defs={'file_ok': (['w', 'u'], 'file_named_ok(w) and file_index(w) == u and file_has_text(w) and len(text_toks(file_text(w), 0)) == 2 and value(text_toks(file_text(w), 0)[0]) == args.n1 and value(text_toks(file_text(w), 0)[1]) == args.n2 and text_len(file_text(w)) >= 2 + args.n1 + args.n2')},
     requires=ARGS_OK + ['args.upperquotas >= args.n2'],
     loops={0: dict(invariant=[('one-file-written-per-instance-so-far', 'files_written() == old(files_written()) + _k'),
-                              ('files-so-far-are-numbered-in-order-and-hold-an-instance-text', 'forall(u, 0, _k, file_ok(old(files_written()) + u, u))')])},
+                              ('files-so-far-are-numbered-in-order-and-hold-an-instance-text', 'forall(w, old(files_written()), old(files_written()) + _k, file_ok(w, w - old(files_written())), file_index(w))')])},
     use_lemmas={'after_call:create_instance_info': [('C08/spread-monotone', {'n': 'args.n2', 'a': 'args.lowerquotas', 'b': 'args.upperquotas'})]},
     ensures=[('exactly-the-requested-number-of-files', 'files_written() == old(files_written()) + args.numberinstances'),
-             ('files-are-named-0-1-2-in-the-output-directory-and-each-holds-an-instance-text-with-the-requested-counts', 'forall(u, 0, args.numberinstances, file_ok(old(files_written()) + u, u))')]),
+             ('files-are-named-0-1-2-in-the-output-directory-and-each-holds-an-instance-text-with-the-requested-counts', 'forall(w, old(files_written()), old(files_written()) + args.numberinstances, file_ok(w, w - old(files_written())), file_index(w))')]),
 }
